@@ -155,7 +155,7 @@ CHECKS = {
              "record and ANY attribute list of a stored record, every offered (attribute, value) is represented in the result (inserted, or "
              "already present as an equal value under the single-value guard), everything the accumulator held is kept, and nothing else appears "
              "(addOne_general; built on C09's re-creation lemmas); unified() of documents and bundles compared with an independent specification "
-             "(union of attributes, first-occurrence order, ProvException iff formal conflict), idempotence, source unchanged. On the heap (Props/C08D): c08_mergeGroup_content (one fresh cell holding exactly the union of the group under the first member's kind and identifier; no existing cell written), c08_mergeAll_content and c08_unifiedRecords_content (the merge table maps every member of every group to such a record; the result is placeMerged of that table). End to end (Props/C08E): the reachable invariants are kept by the merge pass, so ProvBundle.unified() fills one new container with == copies, in order, of the placed list (c08_unifiedBundle_content; c08_unifiedBundle_reachable for every history of the public mutators without a prov:collection attribute object). ProvDocument.unified() (Props/C08F): c08_unifiedDoc_top - the new document's own records are == copies of the placed list and the loop over the bundles leaves them and every record cell alone (unifiedGo_keeps). Props/C08G: the deriving operations keep the reachable invariants together with 'no membership record' (Good2): add_record (good2_addRecord), ProvBundle.unified (good2_unifiedBundle), add_bundle (good2_addBundle), ProvDocument.unified (good2_unifiedDoc, success or error), flattened (good2_flattened) - so heaps produced by derived documents are again heaps to which the heap theorems apply. Props/C08H: the bundles of ProvDocument.unified() - unifiedGo_chain / c08_unifiedDoc_bundles: on success the new document lists exactly one bundle per source bundle, in order, each under an identifier with the URI of the source bundle's identifier (unifiedBundle_id, attachBundle_ok_id, validName_qn_uri) and each holding what ProvBundle.unified() makes of that source bundle (UnifiedOf: records in order, each same-identifier same-kind group replaced at the place of its first member by one record holding exactly the union), no later round of the loop changing an earlier result (unifiedGo_others, unifiedGo_keeps); concrete instance with a merging bundle.",
+             "(union of attributes, first-occurrence order, ProvException iff formal conflict), idempotence, source unchanged. On the heap (Props/C08D): c08_mergeGroup_content (one fresh cell holding exactly the union of the group under the first member's kind and identifier; no existing cell written), c08_mergeAll_content and c08_unifiedRecords_content (the merge table maps every member of every group to such a record; the result is placeMerged of that table). End to end (Props/C08E): the reachable invariants are kept by the merge pass, so ProvBundle.unified() fills one new container with == copies, in order, of the placed list (c08_unifiedBundle_content; c08_unifiedBundle_reachable for every history of the public mutators without a prov:collection attribute object). ProvDocument.unified() (Props/C08F): c08_unifiedDoc_top - the new document's own records are == copies of the placed list and the loop over the bundles leaves them and every record cell alone (unifiedGo_keeps). Props/C08G: the deriving operations keep the reachable invariants together with 'no membership record' (Good2): add_record (good2_addRecord), ProvBundle.unified (good2_unifiedBundle), add_bundle (good2_addBundle), ProvDocument.unified (good2_unifiedDoc, success or error), flattened (good2_flattened) - so heaps produced by derived documents are again heaps to which the heap theorems apply. Props/C08H: the bundles of ProvDocument.unified() - unifiedGo_chain / c08_unifiedDoc_bundles: on success the new document lists exactly one bundle per source bundle, in order, each under an identifier with the URI of the source bundle's identifier (unifiedBundle_id, attachBundle_ok_id, validName_qn_uri) and each holding what ProvBundle.unified() makes of that source bundle (UnifiedOf: records in order, each same-identifier same-kind group replaced at the place of its first member by one record holding exactly the union), no later round of the loop changing an earlier result (unifiedGo_others, unifiedGo_keeps); concrete instance with a merging bundle. Props/C08I: Reach - the states reachable from nothing by the mutators AND the deriving operations (add_record, update, add_bundle, flattened, unified of bundles and documents, successful or not) in any order - all satisfy the invariants (reach_good2; update: good2_update), so every record of every such state is a stored record (c09_reach_stored) and the unified() theorems hold there without hypotheses on records, managers or indices (c08_unifiedBundle_reach); side condition only on mutator steps (no prov:collection attribute / membership record stored); instance: build, unify, add to the result, flatten it.",
         note=A_COMMON + " Identified membership records are not claimed.",
         technique="Lean 4 list lemmas on the placement pass + op-sequence correspondence + independent unification spec",
         design="§4.C08"),
